@@ -413,6 +413,9 @@ fn drive_scalars(sink: &mut Sink, rng: &mut Rng, n: usize) {
         // generic: the character raw in the name, behind a namespace
         let s3 = format!("pkg:t/n/x{}", c);
         parse_event::<String>(sink, "generic", "String", &s3);
+        // and inside a checksum algorithm name (lower-cased with the Unicode mapping, which leaves some capitals alone)
+        let s4 = format!("pkg:t/n?checksum=a{}:0A", esc);
+        parse_event::<String>(sink, "generic", "String", &s4);
     }
 }
 
@@ -923,7 +926,7 @@ const V_VALS: &[&str] = &["jar", "pom", "sources", "war", "zip", "linux", "amd64
                           "git+https://git.fsfe.org/dxtr/bitwarderl@cc55108da32", "https://repo.example.org/a?b=c&d=e#f", "docker.io/library/debian",
                           "sha1:ad9503c3e994a4f611a4892f2e67ac82df727086", "sha256:AABB,md5:00ff", "sha512-256:a1,sha512:a0", "debian-11", " "];
 const V_SUBS: &[&str] = &["", "src/main", "cmd/tool/v2", "googleapis/api/annotations", "v2"];
-const V_COMBINED: &[&str] = &["github.com/go-redis/redis/v8", "a/v2", "a/v10/b", "example.com/m/v10", "gopkg.in/yaml.v3", "k8s.io/api/v0", "@angular/cli", "@types%2Fnode",
+const V_COMBINED: &[&str] = &["github.com/!burnt!sushi/toml", "example.com/!x", "!a/b", "a/!b", "github.com/go-redis/redis/v8", "a/v2", "a/v10/b", "example.com/m/v10", "gopkg.in/yaml.v3", "k8s.io/api/v0", "@angular/cli", "@types%2Fnode",
                               "@types/node/v2", "org.apache.commons:io", "g:a:v2", "org.apache:commons/io", "libc", "v2", "/v2", "a/v2/"];
 
 fn drive_vocab(sink: &mut Sink, _rng: &mut Rng, n: usize) {
